@@ -24,6 +24,18 @@ def run_one(mod, case, install=False, case_timeout=None):
         _install(mod)
     c = Ctx(case)
     monitors.set_current(c)
+    # virocon's unseeded draws use numpy's global generator: make every case (and its replay) a deterministic function of
+    # (VERIF_SEED, case id) - verdicts never depend on it (DKW bounds at 1e-12), evidence and replays do
+    try:
+        import random as _random
+
+        import numpy as _np
+
+        _s = (int(os.environ.get("VERIF_SEED", "0")) * 1000003 + int(case.get("id", 0) or 0) * 7919 + 12345) % (2**32)
+        _np.random.seed(_s)
+        _random.seed(_s)
+    except Exception:  # noqa: BLE001
+        pass
     t0 = time.time()
     case_timeout = case_timeout or int(case.get("timeout", getattr(mod, "CASE_TIMEOUT_S", 600)))
     old = signal.signal(signal.SIGALRM, _alarm)
